@@ -48,6 +48,10 @@ checks = {
    text="The current chain/queue.go is rewritten (AST pass, at check time) so that every channel operation, select and goroutine start goes through a cooperative scheduler; all interleavings of producer, consumer, stopper and the queue's worker and all choices among simultaneously ready select cases are explored by DFS with a visited set on the full canonical state, to fixpoint with unbounded preemptions, for buffer sizes 0..3 and bursts 1..5 (thorough 0..5 / 1..9); FIFO/no-loss/no-duplication are checked at every receive and terminal state, producer progress without consumer, and worker termination after Stop.",
    note="Channel operations are the only scheduling points (code between them is thread-local in queue.go); memory-model effects are out of scope of a cooperative scheduler; constructs the rewriter does not understand make the check exit 2, never 0.",
    technique="stateful model checking of the implementation under a controlled scheduler (all interleavings + all select choices, state hashing, fixpoint)"),
+ "C04": dict(engine="seqx", level=MC, ref="4/C04",
+   text="Every operation sequence up to depth 3 (thorough 4 reduced) over derive/new account/new scope/imports/passphrase changes/lock/unlock/convert-to-watching-only/restart on a real manager; at the commit boundary after the last operation the raw database file (all pages including freed ones) is scanned for every secret that can exist for the seed in raw, hex and serialized text form and for every sensitive public datum (no transaction is recorded in these histories); the image written by wallet.Create is scanned too; after conversion and reopen every address must still be known, no passphrase may unlock and no accessor may return private material.",
+   note="Patterns torn across a page boundary of a partially written commit are not modelled; secrets come from the independent reference derivation for a superset of what the alphabet can create.",
+   technique="bounded exhaustive enumeration of operation sequences on the implementation with a byte-level scan of the file image at every commit boundary"),
 }
 pending_reason = "check not built yet in this session (planned, see DESIGN.md section 4)"
 def sh(c): return subprocess.run(c, shell=True, capture_output=True, text=True).stdout.strip()
